@@ -51,6 +51,7 @@ struct FdEnt {
     std::deque<Frame> rxq;
     // can
     bool canfd_enabled = false;
+    size_t rcvbuf_bytes = 0;   // SO_RCVBUF as the kernel keeps it (twice the value asked for, at least 2304); 0 = the system default
     bool pmtudisc_do = false;  // IP_MTU_DISCOVER = IP_PMTUDISC_DO/PROBE: datagrams above the path MTU are refused instead of fragmented
     int bus = -1;
     std::deque<CanRec> canq;
